@@ -50,10 +50,11 @@ CHECKS.update({
 
 CHECKS.update({
     "C14": dict(
-        technique="static analysis: exit-path graph search on the MIR CFG (opener -> return avoiding closers), who-may-open/close tables, co-occurrence of sibling stacks, call-graph reachability of permanent-root sites",
+        technique="static analysis: exit-path graph search on the MIR CFG (opener -> return avoiding closers), who-may-open/close tables, co-occurrence of sibling stacks, call-graph reachability of permanent-root sites, dominance of handler exits by the scope unwind",
         text="Decides the pairing clauses exactly for every function: a push onto the interpreter's environment-guard stack or call "
              "stack is popped on every path to a return (each `?` included), cross-function pairs are the discovered ones, frame "
-             "entry/exit touch both stacks, and only module-lifetime objects are rooted permanently at run time. The generator "
+             "entry/exit touch both stacks, only module-lifetime objects are rooted permanently at run time, and exception handlers are "
+             "entered with the try block's scopes unwound. The generator "
              "guard leak it found was repaired (fix: commit). It does not decide that live-object counts stay constant.",
         ref="4/C14"),
 })
@@ -72,18 +73,19 @@ CHECKS.update({
 
 CHECKS.update({
     "C01": dict(
-        technique="static analysis: sibling agreement of frame pop sites, match-arm call-graph reachability for coercions, emit/handle pairing between compiler and VM, type walk of the property container, opcode table coverage",
-        text="Decides five structural necessary conditions of conformance (not the value of any operator): trampoline frame pop "
+        technique="static analysis: sibling agreement of frame pop sites, match-arm call-graph reachability for coercions, emit/handle pairing between compiler and VM, type walk of the property container, opcode table coverage, operand-role signatures of sibling arms, in-place copy direction test",
+        text="Decides seven structural necessary conditions of conformance (not the value of any operator): trampoline frame pop "
              "sites restore the same VM fields; operator arms convert register operands through the hook-aware coercion; "
              "break/continue/return pop block scopes on exactly one side; the own-property container is insertion ordered; "
-             "every opcode is emitted, handled and (for jumps) patched. Today's deviations are genuine and listed with failing "
+             "every opcode is emitted, handled and (for jumps) patched; plain/computed sibling arms agree on operand roles; a hand-written "
+             "copy inside one vector is dominated by a direction test. Today's deviations are genuine and listed with failing "
              "programs; the frame-restore defect was repaired (fix: commit).",
         ref="4/C01"),
     "C08": dict(
-        technique="static analysis: operand provenance + dominance templates on StepResult constructions, who-may-write table for the ledger, must-pass-through in step(), per-variant sibling comparison of the result mappers",
+        technique="static analysis: operand provenance + dominance templates on StepResult constructions, who-may-write table and operation-kind table for the ledger, must-pass-through in step(), per-variant sibling comparison of the result mappers",
         text="Decides the ledger-discipline clauses exactly: every Suspended result moves the pending/cancelled ledgers out with "
              "mem::take (or is built where the ledger is known empty), Complete is built only on the nothing-outstanding edges, "
-             "order ids are fresh, only designated functions touch the ledger, step() re-checks settled promises before taking "
+             "order ids are fresh, only designated functions touch the ledger and delivered responses are consumed by key, step() re-checks settled promises before taking "
              "a ready context, and the two result mappers agree per VmResult variant. Protocol-history clauses (progress, "
              "combinator settlement) are not decided.",
         ref="4/C08"),
@@ -98,11 +100,11 @@ CHECKS.update({
 
 CHECKS.update({
     "C13": dict(
-        technique="static analysis: unsafe-operation inventory of src/gc.rs; each obligation discharged by a dominance / value-range / caller-argument / who-may-call rule over MIR",
+        technique="static analysis: unsafe-operation inventory of src/gc.rs; each obligation discharged by a dominance / value-range / caller-argument / who-may-call / quotient-flow rule over MIR",
         text="Turns every unsafe operation and ordering assumption of the collector into an obligation and discharges it "
              "structurally: handle dereferences dominated by Weak::upgrade, bitmap indices provably in range (with "
              "CHUNK_CAPACITY tied to the bitmap width), raw chunk-pointer offsets bound-checked, chunks never reallocating, "
-             "sweep only after mark, pooled slots never rooted. Four obligations fail on today's tree (borrow after heap drop, "
+             "sweep only after mark, pooled slots never rooted, no truncated quotient bounding a word counter. Four obligations fail on today's tree (borrow after heap drop, "
              "missing handle identity check); both are genuine, reproduced and listed. It does not decide that live == reachable.",
         ref="4/C13"),
 })
@@ -155,11 +157,11 @@ CHECKS.update({
 
 CHECKS.update({
     "C05": dict(
-        technique="static analysis: panic-site and narrow-arithmetic inventory over lexer/parser/compiler, recursive SCCs with depth-guard recognition (token-consuming cycles vs AST walks), checkpoint/restore self-reachability, natural-loop gate / progress-edge analysis",
+        technique="static analysis: panic-site and narrow-arithmetic inventory over lexer/parser/compiler, recursive SCCs with depth-guard recognition (token-consuming cycles vs AST walks), checkpoint/restore self-reachability and value-expression coverage of the rolled-back region, natural-loop gate / progress-edge analysis",
         text="Decides four structural clauses over every function of the front end: no explicit panic site and no unsafe narrow "
              "arithmetic; every token-consuming recursive cycle is depth guarded; no function re-parses with a self-reaching "
-             "sub-parser after restoring a checkpoint around another one (exactly one offender: 2^n on nested parenthesised "
-             "assignments); every loop of the lexer/parser has an input-state gate or a progress edge on each cycle. The "
+             "sub-parser after restoring a checkpoint around another one, nor rolls back over a whole value expression (exactly one "
+             "offender: 2^n on nested parenthesised assignments); every loop of the lexer/parser has an input-state gate or a progress edge on each cycle. The "
              "unguarded parser recursion, the exponential speculation and the u8 overflows are genuine, reproduced and listed. "
              "Polynomial degree and memory use are not decided.",
         ref="4/C05"),
